@@ -149,6 +149,14 @@ def write_and_judge(f, bec, key, off, mode, ciph, blocks=()):
 def judge_case(cm, comps, key, off, mode, ciph, blocks=()):
     """a fresh object written once"""
     f = B.build(cm, comps)
+    held = comps_of(f)
+    given = [(dict(d), bytes(b), a or len(b), bool(e)) for d, b, a, e in comps]
+    if held != given:
+        # "for every file content": the object must hold the content it was built from (tag list, payload bytes,
+        # declared length, and whether the payload is to be encrypted by the writer or stored as given)
+        i = [x != y for x, y in zip(held, given)].index(True) if len(held) == len(given) else -1
+        return ("the component object does not hold the content it was constructed from (component %d): given %r, holds %r"
+                % (i, given[i] if i >= 0 else given, held[i] if i >= 0 else held))[:1500], None, None
     bec = make_bec(f, blocks, key) if mode.startswith("bec2") else None
     return write_and_judge(f, bec, key, off, mode, ciph, blocks)
 
@@ -180,7 +188,7 @@ def gen_op(r, f, with_bec):
                     ln = r.choice([x for x in (0, 1, 2, 3, 7, 40) if x != len(d[t])])
                     return [k, ci, t, bytes(r.randrange(256) for _ in range(ln))]
         if k == "append_comp" and n < 6:
-            d, b, a, e = B.gen_comp(r, enc=r.random() < 0.15)
+            d, b, a, e = tag02(r, B.gen_comp(r, enc=r.random() < 0.15))
             return [k, {str(t): v for t, v in d.items()}, b, a, e, r.randrange(n + 1)]
         if k == "del_comp" and n:
             return [k, r.randrange(n)]
@@ -230,9 +238,25 @@ def apply_op(f, bec, blocks, op):
         blocks[:] = list(d.items())
 
 
+
+def tag02(r, comp, prob=0.08):
+    """a component handed over to be stored as given (flag False) whose tag list nevertheless says ENC = 02
+    (e.g. a payload that was encrypted elsewhere): the writer stores its bytes unchanged (wave-6 miss C03_2)"""
+    d, b, a, e = comp
+    if not e and r.random() < prob:
+        d = dict(d)
+        d[0xC2] = b"\x02"
+    return (d, b, a, e)
+
+
+def gen_file_c03(r):
+    cm, comps = B.gen_file(r, enc_prob=0.15)
+    return cm, [tag02(r, c) for c in comps]
+
+
 def gen_history(r, modes, offsets):
     """(comments, comps, blocks, steps): steps alternate ['write', mode, off, key] and edit operations"""
-    cm, comps = B.gen_file(r, enc_prob=0.15)
+    cm, comps = gen_file_c03(r)
     with_bec = any(m.startswith("bec2") for m in modes)
     blocks = gen_blocks(r) if with_bec else []
     f = B.build(cm, comps)                  # scratch object only used to generate applicable edits
@@ -293,7 +317,7 @@ def correspondence(ctx):
     n = ctx.budget(110, 1500) * (4 if ctx.brokens else 1)
     with toycipher.registered():
         for i in range(n):
-            cm, comps = B.gen_file(r, enc_prob=0.15)
+            cm, comps = gen_file_c03(r)
             key = B.rkey(r)
             off = OFFSETS[i % len(OFFSETS)] if i < 4 * len(OFFSETS) else r.choice(OFFSETS + [r.randrange(1 << 16)])
             why, body, fs = judge_case(cm, comps, key, off, "binary", ciph)
@@ -382,7 +406,7 @@ def search(ctx):
     # boundary enumeration: every offset with 0..4 components and 0..6 tags
     for off in OFFSETS:
         for ncomp in range(0, 5):
-            comps = [B.gen_comp(r, enc=(j == 1 and ncomp > 2)) for j in range(ncomp)]
+            comps = [tag02(r, B.gen_comp(r, enc=(j == 1 and ncomp > 2))) for j in range(ncomp)]
             run({}, comps, B.rkey(r), off, "binary")
         for ntags in (0, 1, 6):
             ids = r.sample(B.TAG_IDS, ntags)
@@ -413,7 +437,7 @@ def search(ctx):
                          "write %d of one object (%r): %s" % (wn, st[1:3], why))
                 break
     for i in range(n):
-        cm, comps = B.gen_file(r, enc_prob=0.15)
+        cm, comps = gen_file_c03(r)
         key = B.rkey(r)
         mode = ("binary", "binary", "text", "bec2", "bec2text")[i % 5]
         off = r.choice(OFFSETS) if mode == "binary" else 5
